@@ -622,13 +622,24 @@ value_t& value_t::operator-=(const value_t& val)
   return *this;
 }
 
+namespace {
+  // longest string, and most additions, `string * n' and `sequence * n' build
+  const unsigned long max_repeated_size = 1048576UL;
+}
+
 value_t& value_t::operator*=(const value_t& val)
 {
   if (is_string()) {
+    // the result is built one copy at a time: bound it, and do not count up
+    // to billions over an empty string
     string temp;
     long count = val.to_long();
-    for (long i = 0; i < count; i++)
-      temp += as_string();
+    if (count > 0 && ! as_string().empty()) {
+      if (static_cast<unsigned long>(count) > max_repeated_size / as_string().length())
+        throw_(value_error, _("Cannot repeat a string that many times"));
+      for (long i = 0; i < count; i++)
+        temp += as_string();
+    }
     set_string(temp);
     return *this;
   }
@@ -639,6 +650,8 @@ value_t& value_t::operator*=(const value_t& val)
   else if (is_sequence()) {
     value_t temp;
     long count = val.to_long();
+    if (count > 0 && static_cast<unsigned long>(count) > max_repeated_size)
+      throw_(value_error, _("Cannot repeat a sequence that many times"));
     for (long i = 0; i < count; i++)
       temp += as_sequence();
     return *this = temp;
